@@ -462,6 +462,102 @@ func (w *World) StepInterleaved(ctrl, id string, k int, other func()) (res StepR
 	return res, reached
 }
 
+// StepSplit runs Reconcile(ctrl, id) on its own goroutine and parks it when its (k+1)-th possibly effectful call
+// (store write RPC, topo write, device Set) arrives at a simulated neighbour, before that call is executed. atHold
+// then runs with the call parked: it may kill the rest of the step (fuse.Kill: the "hold" half of a split step) or
+// swap the world for a later state (Restore: the "release" half – the step continues with what it read earlier).
+// reached is false when the step makes fewer than k+1 such calls (atHold did not run, the step ran to completion).
+func (w *World) StepSplit(ctrl, id string, k int, atHold func()) (res StepResult, reached bool) {
+	w.fuse.ResetEffects()
+	paused, resume, done := make(chan struct{}), make(chan struct{}), make(chan struct{})
+	var mu sync.Mutex
+	n, hit := 0, false
+	conflictsBefore := 0
+	if w.atomix != nil {
+		conflictsBefore = w.atomix.conflicts
+	}
+	w.fuse.SetGate(func(kind string) {
+		mu.Lock()
+		if n == k && !hit {
+			hit = true
+			mu.Unlock()
+			close(paused)
+			<-resume
+			return
+		}
+		n++
+		mu.Unlock()
+	})
+	go func() {
+		defer close(done)
+		res = w.reconcileOnce(ctrl, id)
+	}()
+	synctest.Wait()
+	mu.Lock()
+	reached = hit
+	mu.Unlock()
+	if reached {
+		atHold()
+		synctest.Wait()
+		close(resume)
+	}
+	<-done
+	w.fuse.SetGate(nil)
+	synctest.Wait()
+	w.ReapCalls()
+	if w.atomix != nil {
+		res.Conflicts = w.atomix.conflicts - conflictsBefore
+	}
+	res.Effects, res.Writes = w.fuse.ResetEffects()
+	res.Crashed = w.fuse.Crashed()
+	res.Tokens = append(w.TakeTokens(), res.Tokens...)
+	res.DevLog = map[string][]devReq{}
+	for t, d := range w.devices {
+		if l := d.TakeLog(); len(l) > 0 {
+			res.DevLog[t] = l
+		}
+	}
+	res.Docs = map[string][]pluginDoc{}
+	for t, p := range w.plugins {
+		if d := p.TakeDocs(); len(d) > 0 {
+			res.Docs[t] = d
+		}
+	}
+	return res, reached
+}
+
+// Hold executes the first half of a split step on the current world: the step runs until its (k+1)-th possibly
+// effectful call arrives and is abandoned there (nothing it does afterwards has any effect). The tokens returned are
+// the watcher deliveries caused by the first half; the step's own return value is meaningless and dropped.
+func (w *World) Hold(ctrl, id string, k int) (res StepResult, reached bool) {
+	res, reached = w.StepSplit(ctrl, id, k, func() { w.fuse.Kill() })
+	w.fuse.Disarm()
+	if !reached {
+		return res, false
+	}
+	var toks []Token
+	for _, t := range res.Tokens {
+		if t.Src != "retry" && t.Src != "requeue" {
+			toks = append(toks, t)
+		}
+	}
+	res.Tokens = toks
+	res.Err, res.Requeued, res.Crashed = "", false, false
+	return res, true
+}
+
+// Release executes the second half of a split step: the step is re-run from the world it began in (begin) up to the
+// hold point – reproducing what it had read and done – the world is then swapped for the current one (now, which
+// descends from begin plus the first half's effects) and the step continues there with its stale knowledge.
+func (w *World) Release(ctrl, id string, k int, begin, now *WorldSnap) (res StepResult, reached bool) {
+	w.Restore(begin)
+	res, reached = w.StepSplit(ctrl, id, k, func() {
+		w.Restore(now)
+		w.fuse.ResetEffects()
+	})
+	return res, reached
+}
+
 // Settle waits for quiescence and returns the tokens that arrived (used after environment events and requests).
 func (w *World) Settle() []Token {
 	synctest.Wait()
